@@ -1,9 +1,20 @@
 //! linksim: E2 component simulators (DESIGN 2.3) - `linksim check C09|C10|C15 ...`
 //! CLI contract: see simkit (exit 0 held / 1 violation + VIOLATION line / 2 harness error).
+//!
+//!   drv.rs     generic driver: 16 threads, one seed -> one plan -> one run, triage, ddmin, replay, evidence
+//!   link.rs    sender <-> bottleneck <-> receiver simulator; C10 oracles after every trait call, C09 oracles
+//!   shadow.rs  RFC 9002 appendix A transcription (RTT estimator, PTO, loss delay, persistent congestion)
+//!   c15.rs     two-party KeySet simulator with an instrumented OneRttKey
+//!
+//! Environment: LINKSIM_QUICK_RUNS=n (size of the quick batch), LINKSIM_STRICT=1 (promote the two
+//! stricter-than-the-statement observations of C09/C10 to violations), LINKSIM_KEEP_GOING=1 (thorough:
+//! do not stop the batch after the first violations), LINKSIM_SLOW_MS=n (report slow runs), VERIF_DEBUG=1
+//! (replay prints the event log).
 
 mod c15;
 mod drv;
 mod link;
+mod shadow;
 
 fn main() {
     let args: Vec<String> = std::env::args().skip(1).collect();
